@@ -48,7 +48,9 @@ CLAIM = dict(
          'vs arrays, callbacks returning a view of their argument or of their own buffer): every observed write / alias must '
          'be allowed by the exception table and predicted by the skeleton; in addition every table entry the translation relied '
          'on to call a library routine FRESH (new memory, operands untouched) is called directly on C / Fortran / strided / '
-         'size-1 operands and checked with np.shares_memory. Result objects that a function also stores into '
+         'size-1 operands and checked with np.shares_memory; and every recipe is re-run with its option / index / point '
+         'arguments given as C-contiguous int64 / float64 ndarrays (so that asanyarray / ascontiguousarray / grid_prep_opt(s) '
+         'are the identity), scalar options written out as arrays, and batches reduced to a single point. Result objects that a function also stores into '
          'the info / cache dictionaries are covered by the exception (info / cache may reach them). Exported classes (ANOVA, '
          'ANOVA_func) and underscore helpers are analysed as callees only. Heap model: a view / slice / reshape of an array '
          'is the same object as its base (conservative: two disjoint slices of one buffer count as aliased).',
@@ -834,17 +836,22 @@ def footprint(R, ctx, names=None, seeds=(1,), probes=True, derived=True):
                     dv0 = derive(tn, g, name, args, kw, DERIVED_MODES[0])
                     if dv0 is None:
                         continue
-                    seen_sig = set()
-                    for mode in DERIVED_MODES:
-                        with contextlib.redirect_stdout(io.StringIO()), warnings.catch_warnings():
-                            warnings.simplefilter('ignore')
-                            label, args, kw = recipes(tn, Env(tn, layout, aslist, seed), only=name)[name][ci]
+                    seen_sig, todo = set(), []
+                    with contextlib.redirect_stdout(io.StringIO()), warnings.catch_warnings():
+                        warnings.simplefilter('ignore')
+                        label, args, kw = recipes(tn, Env(tn, layout, aslist, seed), only=name)[name][ci]
+                    for mode in DERIVED_MODES:      # which modes add something (shapes / dtypes only; nothing is called)
                         dv = derive(tn, g, name, args, kw, mode)
                         if dv is None or dv[2] in seen_sig:
                             continue
                         seen_sig.add(dv[2])
-                        if _same_as_base(dv[2], args, kw, tn, name):
-                            continue
+                        if not _same_as_base(dv[2], args, kw, tn, name):
+                            todo.append(mode)
+                    for mode in todo:
+                        with contextlib.redirect_stdout(io.StringIO()), warnings.catch_warnings():
+                            warnings.simplefilter('ignore')
+                            label, args, kw = recipes(tn, Env(tn, layout, aslist, seed), only=name)[name][ci]
+                        dv = derive(tn, g, name, args, kw, mode)
                         dlabel = f'{label} | {mode_label(mode)}'
                         viol, inf = run_case(tn, g, name, dlabel, dv[0], dv[1], probes, tolerant=True)
                         ncalls += 1
